@@ -207,11 +207,13 @@ func checkLexer(c *checkCtx, prop string) {
 		o.ng = true
 		o.accum = true
 		o.epsRules = true // "every accepted specification": also rules that can match the empty string
+		o.ngAnywhere = true
 		c.cov.Rule = "rule sets of all kinds; the emitted mode arrays must be structurally well-formed (sorted disjoint ranges, targets and mode indices in range) and pass the product exploration against the powerset of the NFA they were built from (dumped by the hook); parser arrays must decode to exactly the dumped actions/gotos; the row-compression encoder is compared with its proved Gallina model on adversarial rows"
 	case "C11":
 		o.modes = true
 		o.epsRules = true
 		o.accum = true
+		o.ngAnywhere = true // no reference automaton is involved in C11: any placement of *? and +?
 		c.cov.Rule = "rule sets including rules that can match the empty string and accumulating fragments; modes whose only rule begins with a star loop (start state looping on itself), rule-less modes; every emitted table must be structurally well-formed (hypothesis of lex_total); inputs are valid texts (also texts that walk through the modes) cut at every position; the lexer must reach EOF with every byte accounted for"
 	}
 	c.coqObligations()
@@ -230,6 +232,13 @@ func checkLexer(c *checkCtx, prop string) {
 	}
 	ws := newWorkspace(strings.ToLower(prop))
 	defer ws.close()
+	for _, sp := range corpusLexSpecs(o) {
+		if !o.epsRules {
+			sp.ensureNoEmptyMatch(c.rng)
+		}
+		s := ws.add(sp.text(c.rng))
+		s.tag = sp
+	}
 	for i := 0; i < nSpecs; i++ {
 		sp := genLexSpec(c.rng, o)
 		s := ws.add(sp.text(c.rng))
